@@ -52,7 +52,11 @@ def _fracs():
         st.builds(lambda i, f: i * 65536 + f, st.integers(-1200, 1200), st.sampled_from([1, 0x8000, 0xFFFF, 0x4000, 0xC000])),
         st.integers(-(2**26), 2**26),
     )
-    return raw.map(lambda r: r / 65536.0 if r & 0xFFFF else r >> 16)
+    exact = raw.map(lambda r: r / 65536.0 if r & 0xFFFF else r >> 16)
+    # floats that are NOT multiples of 1/65536 but lie within half a 16.16 unit of an integer, on either side (what float
+    # arithmetic on coordinates yields: 0.3 / 0.1, 4.35 * 100): the encoder must write the integer they round to
+    near = st.builds(lambda n, e: n + e, st.integers(-1200, 1200), st.sampled_from([2.0**-20, -(2.0**-20), 1e-9, -1e-9, 2.0**-17 - 2.0**-30, -(2.0**-17 - 2.0**-30), 4.4e-16, -4.4e-16]))
+    return st.one_of(exact, exact, exact, near)
 
 
 _CACHE = {}
